@@ -10,7 +10,7 @@
    moveto (it does in exact arithmetic, by C09's theorems; floats add noise far below any tolerance in
    use) and the geometric reading of the verification step are decided by the judge. *)
 From Coq Require Import ZArith Reals Lra List Bool Ascii String.
-From Pico Require Import Num PyStr G_geom G_transform G_meta G_types Walk Reuse E1_affine E3_walk E6_reuse E6_translation.
+From Pico Require Import Num PyStr G_geom G_transform G_meta G_types Walk Reuse E1_affine E3_walk E6_reuse E6_translation E6_arcflags.
 Import ListNotations.
 
 Theorem C20_reported_transform_is_verified (cand2 cand3 : pathR -> pathR -> result (option Aff)) (p1 p2 : pathR) tol A :
@@ -43,6 +43,14 @@ Example C20_translation_premise_met :
   Forall rel_wf [("l"%char, [3; 0]); ("q"%char, [1; 2; 0; 3]); ("c"%char, [0; 1; -1; 2; -2; 2]); ("a"%char, [2; 1; 0; 0; 1; -1; -1]); ("z"%char, [])]%R.
 Proof. exact rel_wf_example. Qed.
 
-Definition C20_all := (C20_reported_transform_is_verified, C20_identical_shapes_give_identity,
+(* the recorded finding, exhibited in the model (a `refuted` statement about arcs, not a guarantee): every affine map - a
+   reflection included - leaves an arc's x-axis rotation and both flags as they were *)
+Theorem C20_arc_parameters_not_transformed_refuted (A : Aff) (c : Ascii.ascii) (rx ry rot large sweep x y : R) :
+  c = "A"%char \/ c = "a"%char ->
+  let out := affine_args RMath A c [rx; ry; rot; large; sweep; x; y] in
+  nth 2 out 0%R = rot /\ nth 3 out 0%R = large /\ nth 4 out 0%R = sweep /\ List.length out = 7%nat.
+Proof. exact (arc_parameters_not_transformed A c rx ry rot large sweep x y). Qed.
+
+Definition C20_all := (C20_arc_parameters_not_transformed_refuted, C20_reported_transform_is_verified, C20_identical_shapes_give_identity,
   C20_nothing_reported_beyond_tolerance, C20_almost_equals_means_commandwise_close, C20_exact_translation_is_found).
 Print Assumptions C20_all.
